@@ -1,1 +1,330 @@
-//! Seeded generators shared by the monitors.
+//! Seeded generators shared by the monitors (STAR scenarios, byte content
+//! classes, selection patterns).
+
+use crate::common::*;
+use rand::seq::SliceRandom;
+use rand::Rng;
+use rand_chacha::ChaCha20Rng;
+use sta_rs::{AssociatedData, Message, MessageGenerator, SingleMeasurement};
+
+/// Strobe-128 rate: payloads whose framed length straddles it span two blocks
+pub const RATE: usize = 166;
+
+#[derive(Clone, Copy, Debug, PartialEq, Eq, Hash)]
+pub enum Content {
+  Uniform,
+  Zero,
+  Ones,
+  Ascii,
+}
+
+pub fn content(rng: &mut ChaCha20Rng, len: usize, c: Content) -> Vec<u8> {
+  match c {
+    Content::Uniform => rand_bytes(rng, len),
+    Content::Zero => vec![0u8; len],
+    Content::Ones => vec![0xffu8; len],
+    Content::Ascii => (0..len).map(|_| rng.gen_range(0x20u8..0x7f)).collect(),
+  }
+}
+
+pub fn content_class(rng: &mut ChaCha20Rng) -> Content {
+  match rng.gen_range(0..10) {
+    0 => Content::Zero,
+    1 => Content::Ones,
+    2 | 3 => Content::Ascii,
+    _ => Content::Uniform,
+  }
+}
+
+pub fn measurement_len(rng: &mut ChaCha20Rng, thorough: bool) -> usize {
+  let mut lens: Vec<usize> = vec![0, 1, 2, 3, 15, 16, 17, 32, 64];
+  lens.extend(158..=170);
+  lens.extend([1024, 4096]);
+  if thorough {
+    lens.push(8192);
+  }
+  match rng.gen_range(0..10) {
+    0..=6 => *pick(rng, &lens),
+    7 | 8 => rng.gen_range(0..400),
+    _ => rng.gen_range(0..(if thorough { 6000 } else { 1500 })),
+  }
+}
+
+pub fn epoch(rng: &mut ChaCha20Rng) -> Vec<u8> {
+  let len = match rng.gen_range(0..8) {
+    0 => 0,
+    1 => 1,
+    2 => 2,
+    3 => 8,
+    4 => 64,
+    _ => rng.gen_range(0..=64),
+  };
+  let c = content_class(rng);
+  content(rng, len, c)
+}
+
+pub fn threshold(rng: &mut ChaCha20Rng, thorough: bool) -> u32 {
+  let small = [1u32, 2, 3, 4, 5, 7, 8];
+  let mid = [16u32, 17, 31, 32, 33];
+  let big = [63u32, 64, 65];
+  let huge = [100u32, 128, 255];
+  match rng.gen_range(0..100) {
+    0..=64 => *pick(rng, &small),
+    65..=89 => *pick(rng, &mid),
+    90..=97 => *pick(rng, &big),
+    _ => {
+      if thorough {
+        *pick(rng, &huge)
+      } else {
+        *pick(rng, &big)
+      }
+    }
+  }
+}
+
+/// associated data: None / empty / 1 byte / rate-boundary lengths relative to
+/// the framed measurement / multi-block
+pub fn aux(rng: &mut ChaCha20Rng, mlen: usize, thorough: bool) -> Option<Vec<u8>> {
+  let k = rng.gen_range(0..12);
+  let len = match k {
+    0 | 1 => return None,
+    2 => 0,
+    3 => 1,
+    4 | 5 => {
+      // make 4+mlen+4+len land on R-1, R, R+1, 2R-1, 2R, 2R+1
+      let target = *pick(rng, &[RATE - 1, RATE, RATE + 1, 2 * RATE - 1, 2 * RATE, 2 * RATE + 1]);
+      target.saturating_sub(8 + mlen)
+    }
+    6 => rng.gen_range(150..180),
+    7 => rng.gen_range(300..700),
+    8 => {
+      if thorough {
+        2048
+      } else {
+        1024
+      }
+    }
+    _ => rng.gen_range(1..64),
+  };
+  let c = content_class(rng);
+  Some(content(rng, len, c))
+}
+
+#[derive(Clone, Debug, PartialEq, Eq, Hash)]
+pub enum RandSrc {
+  Local,
+  Ppoprf,
+  Arbitrary,
+  AllZero,
+  AllOnes,
+}
+
+pub fn rand_src(rng: &mut ChaCha20Rng) -> RandSrc {
+  match rng.gen_range(0..10) {
+    0..=4 => RandSrc::Local,
+    5 | 6 => RandSrc::Ppoprf,
+    7 => RandSrc::Arbitrary,
+    8 => RandSrc::AllZero,
+    _ => RandSrc::AllOnes,
+  }
+}
+
+/// One full PPOPRF round of one client against a live randomness server.
+/// Returns None if the honest proof does not verify (reported by the caller).
+pub fn ppoprf_round(
+  server: &ppoprf::ppoprf::Server,
+  input: &[u8],
+  md: u8,
+) -> Option<[u8; 32]> {
+  use ppoprf::ppoprf::Client;
+  let (blinded, r) = Client::blind(input);
+  let ev = server.eval(&blinded, md, true).ok()?;
+  if !Client::verify(&server.get_public_key(), &blinded, &ev, md) {
+    return None;
+  }
+  let unblinded = Client::unblind(&ev.output, &r);
+  let mut out = [0u8; 32];
+  Client::finalize(input, md, &unblinded, &mut out);
+  Some(out)
+}
+
+pub struct ClientReport {
+  pub aux: Option<Vec<u8>>,
+  pub msg: Message,
+  pub bytes: Vec<u8>,
+  pub rnd: [u8; 32],
+}
+
+pub struct Scenario {
+  pub measurement: Vec<u8>,
+  pub epoch: Vec<u8>,
+  pub t: u32,
+  pub src: RandSrc,
+}
+
+impl Scenario {
+  pub fn gen(rng: &mut ChaCha20Rng, thorough: bool) -> Scenario {
+    let ml = measurement_len(rng, thorough);
+    let c = content_class(rng);
+    Scenario {
+      measurement: content(rng, ml, c),
+      epoch: epoch(rng),
+      t: threshold(rng, thorough),
+      src: rand_src(rng),
+    }
+  }
+
+  /// every client builds its own generator, obtains the shared randomness from
+  /// the chosen source, and its report crosses to_bytes/from_bytes
+  pub fn make_reports(
+    &self,
+    rng: &mut ChaCha20Rng,
+    auxes: &[Option<Vec<u8>>],
+  ) -> Result<Vec<ClientReport>, String> {
+    let server = if self.src == RandSrc::Ppoprf {
+      let md = rng.gen::<u8>();
+      let mut mds = vec![md];
+      for _ in 0..rng.gen_range(0..3) {
+        mds.push(rng.gen());
+      }
+      Some((ppoprf::ppoprf::Server::new(mds).map_err(|e| e.to_string())?, md))
+    } else {
+      None
+    };
+    let arb: [u8; 32] = rng.gen();
+    let mut out = Vec::with_capacity(auxes.len());
+    for a in auxes {
+      let mg = MessageGenerator::new(
+        SingleMeasurement::new(&self.measurement),
+        self.t,
+        &self.epoch,
+      );
+      let mut rnd = [0u8; 32];
+      match self.src {
+        RandSrc::Local => mg.sample_local_randomness(&mut rnd),
+        RandSrc::Ppoprf => {
+          let (srv, md) = server.as_ref().unwrap();
+          rnd = ppoprf_round(srv, &self.measurement, *md)
+            .ok_or("honest PPOPRF round failed to verify")?;
+        }
+        RandSrc::Arbitrary => rnd = arb,
+        RandSrc::AllZero => rnd = [0u8; 32],
+        RandSrc::AllOnes => rnd = [0xff; 32],
+      }
+      let msg = Message::generate(
+        &mg,
+        &rnd,
+        a.as_ref().map(|b| AssociatedData::new(b)),
+      )
+      .map_err(|e| format!("Message::generate failed: {}", e))?;
+      let bytes = msg.to_bytes();
+      out.push(ClientReport {
+        aux: a.clone(),
+        msg,
+        bytes,
+        rnd,
+      });
+    }
+    Ok(out)
+  }
+}
+
+#[derive(Clone, Copy, Debug, PartialEq, Eq, Hash)]
+pub enum SelPattern {
+  GenerationOrder,
+  Permuted,
+  ExactlyT,
+  DupsAnywhere,
+  DupsFront,
+  Surplus,
+  Reversed,
+}
+
+pub const SEL_PATTERNS: [SelPattern; 7] = [
+  SelPattern::GenerationOrder,
+  SelPattern::Permuted,
+  SelPattern::ExactlyT,
+  SelPattern::DupsAnywhere,
+  SelPattern::DupsFront,
+  SelPattern::Surplus,
+  SelPattern::Reversed,
+];
+
+/// a selection of indices into 0..n that keeps at least t distinct indices
+pub fn selection(
+  rng: &mut ChaCha20Rng,
+  n: usize,
+  t: usize,
+  pat: SelPattern,
+) -> Vec<usize> {
+  let mut all: Vec<usize> = (0..n).collect();
+  match pat {
+    SelPattern::GenerationOrder => all,
+    SelPattern::Reversed => {
+      all.reverse();
+      all
+    }
+    SelPattern::Permuted => {
+      all.shuffle(rng);
+      all
+    }
+    SelPattern::ExactlyT => {
+      all.shuffle(rng);
+      all.truncate(t);
+      all
+    }
+    SelPattern::Surplus => {
+      all.shuffle(rng);
+      let k = rng.gen_range(t..=n);
+      all.truncate(k);
+      all
+    }
+    SelPattern::DupsAnywhere => {
+      all.shuffle(rng);
+      all.truncate(t);
+      let dups = rng.gen_range(1..=t.max(1) + 2);
+      for _ in 0..dups {
+        let d = all[rng.gen_range(0..all.len())];
+        let pos = rng.gen_range(0..=all.len());
+        all.insert(pos, d);
+      }
+      all
+    }
+    SelPattern::DupsFront => {
+      all.shuffle(rng);
+      all.truncate(t);
+      // a run of repeats of one share at the very front, before its original
+      let d = all[rng.gen_range(0..all.len())];
+      let run = rng.gen_range(1..=t.max(1) + 1);
+      let mut v = vec![d; run];
+      v.extend(all);
+      v
+    }
+  }
+}
+
+/// all permutations of `items` (Heap's algorithm); n! results
+pub fn permutations(items: &[usize]) -> Vec<Vec<usize>> {
+  let mut res = Vec::new();
+  let mut a = items.to_vec();
+  let n = a.len();
+  let mut c = vec![0usize; n];
+  res.push(a.clone());
+  let mut i = 0;
+  while i < n {
+    if c[i] < i {
+      if i % 2 == 0 {
+        a.swap(0, i);
+      } else {
+        a.swap(c[i], i);
+      }
+      res.push(a.clone());
+      c[i] += 1;
+      i = 0;
+    } else {
+      c[i] = 0;
+      i += 1;
+    }
+  }
+  res
+}
